@@ -37,7 +37,7 @@ RULE = ('each run = role-built repository with portable names and the standard d
         'auditor, `gemato update -p ebuild` on the untouched output (write-event log must be empty), then 0-5 '
         'edits + update + verify; non-trivial = at least one category with a package; distinct = distinct seam '
         'event-log digest')
-PLAN = {'quick': {'n': 480, 'budget_s': 55, 'block': 8},
+PLAN = {'quick': {'n': 2000, 'budget_s': 90, 'block': 8},
         'thorough': {'n': 16000, 'budget_s': 1200, 'block': 60}}
 ASSUMPTIONS = ['real worker processes are not run: SimPool explores task order inside each map() barrier only',
                'repositories contain eclass, licenses, profiles, metadata/{dtd,glsa,news,xml-schema,md5-cache} (the scripts take them for granted) and profiles/categories without blank lines']
